@@ -329,7 +329,12 @@ func clGetWorld(seed uint64, nA, p, nB int) *clWorld {
 	w.averifier, _ = note.NewVerifier(w.avkey)
 	w.A = clNewLog(w, "A", w.skey)
 	for i := 0; i < nA; i++ {
-		w.A.add(clMakeRec(r, i, "A"))
+		rec := clMakeRec(r, i, "A")
+		if seed >= clSibSeedBase {
+			// worlds with name-related records (util_clsib.go); every other world is unchanged
+			rec = clSibRec(r, w.A, rec)
+		}
+		w.A.add(rec)
 	}
 	if nB > 0 {
 		w.B = clNewLog(w, "B", w.skey)
@@ -587,6 +592,9 @@ func clMutate(kind, param string, data []byte) ([]byte, bool) {
 		return append(append([]byte("+00"), data[:i]...), data[i:]...), true
 	case "tail":
 		return clMutateTail(param, data)
+	case "sigs":
+		// <k>[.pre|.dup] co-signatures by keys the client does not know (util_clsigs.go)
+		return clMutateSigs(param, data)
 	}
 	return nil, false
 }
